@@ -20,7 +20,7 @@ for mid, check, file, old, new in rows:
         open(p, 'w').write(s.replace(old, new, 1))
         t = subprocess.run(['/venv/bin/python', '-m', 'pytest', '-q', '-x', '-p', 'no:cacheprovider', 'test', '--deselect', 'test/test_cases.py::test_cases[full-constexpr_eval]', '--deselect', 'test/test_cases.py::test_cases[compact-constexpr_eval]'], cwd=d, capture_output=True, text=True, env=dict(os.environ, PYTHONPATH=os.path.join(d, 'src')))
         tests = 'tests-pass' if t.returncode == 0 else 'TESTS-FAIL'
-        env = dict(os.environ, VERIF_REPO=d)
+        env = dict(os.environ, VERIF_REPO=d, VERIF_OUT='/verif/scratch/alt')
         c = subprocess.run(['/verif/check', check, 'quick'], env=env, capture_output=True, text=True)
         vio = [l for l in c.stdout.splitlines() if l.startswith('VIOLATION')]
         print(f"{mid:14} {check} {tests:10} exit={c.returncode} {'caught' if c.returncode == 1 and vio else 'MISSED'} ({len(vio)} violation lines)", flush=True)
